@@ -26,6 +26,9 @@ func NewValidateTokenFeeDecorator(k Keeper, bk types.BankKeeper) ValidateTokenFe
 func (dtf ValidateTokenFeeDecorator) AnteHandle(ctx sdk.Context, tx sdk.Tx, simulate bool, next sdk.AnteHandler) (sdk.Context, error) {
 	// total fee
 	feeMap := make(map[string]sdk.Coin)
+	// payers in the order they first appear in the transaction, so that the
+	// checks below (and the gas they consume) do not depend on map iteration order
+	var payers []string
 	for _, msg := range tx.GetMsgs() {
 		switch msg := msg.(type) {
 		case *v1.MsgIssueToken:
@@ -38,6 +41,7 @@ func (dtf ValidateTokenFeeDecorator) AnteHandle(ctx sdk.Context, tx sdk.Tx, simu
 				feeMap[msg.Owner] = fe.Add(fee)
 			} else {
 				feeMap[msg.Owner] = fee
+				payers = append(payers, msg.Owner)
 			}
 		case *v1.MsgMintToken:
 			symbol, err := dtf.k.getSymbolByMinUnit(ctx, msg.Coin.Denom)
@@ -54,11 +58,13 @@ func (dtf ValidateTokenFeeDecorator) AnteHandle(ctx sdk.Context, tx sdk.Tx, simu
 				feeMap[msg.Owner] = fe.Add(fee)
 			} else {
 				feeMap[msg.Owner] = fee
+				payers = append(payers, msg.Owner)
 			}
 		}
 	}
 
-	for addr, fee := range feeMap {
+	for _, addr := range payers {
+		fee := feeMap[addr]
 		owner, _ := sdk.AccAddressFromBech32(addr)
 		balance := dtf.bk.GetBalance(ctx, owner, fee.Denom)
 		if balance.IsLT(fee) {
